@@ -36,7 +36,7 @@ Definition removed_world (w : world) (x : wl) : world :=
   oth w (del_wl (w_id x) (wls w)) (upd_plug (w_node x) (sub_use (w_res x)) (plugs w)) (del_cont (w_id x) (conts w)).
 
 Lemma crunk_call1 : forall c w, crunk (call1 c) w None = (fst (exec w c), None, snd (exec w c)).
-Proof. intros. unfold call1, crunk. cbn [runk]. destruct (exec w c). reflexivity. Qed.
+Proof. intros. unfold call1, crunk. cbn [runk]. destruct (exec w c). destruct (is_faultable c); reflexivity. Qed.
 
 Lemma remove_sync_none : forall id w x nd p,
   find_wl w id = Some x -> find_node w (w_node x) = Some nd -> find_plug w (w_node x) = Some p ->
@@ -79,10 +79,13 @@ Qed.
 
 Lemma neutral_call : forall c, (forall w, fst (exec w c) = w) -> forall w k, exists k' r, crunk (call1 c) w k = (w, k', r).
 Proof.
-  intros c Hc w k. unfold call1, crunk. destruct k as [[|k]|]; cbn [runk].
-  - do 2 eexists; reflexivity.
-  - pose proof (Hc w). destruct (exec w c) as [w' r]. simpl in *. subst. do 2 eexists; reflexivity.
-  - pose proof (Hc w). destruct (exec w c) as [w' r]. simpl in *. subst. do 2 eexists; reflexivity.
+  intros c Hc w k. unfold call1, crunk. cbn [runk]. pose proof (Hc w) as H.
+  destruct (is_faultable c).
+  - destruct k as [[|k]|].
+    + do 2 eexists; reflexivity.
+    + destruct (exec w c) as [w' r]. simpl in *. subst. do 2 eexists; reflexivity.
+    + destruct (exec w c) as [w' r]. simpl in *. subst. do 2 eexists; reflexivity.
+  - destruct (exec w c) as [w' r]. simpl in *. subst. do 2 eexists; reflexivity.
 Qed.
 Lemma neutral_doc : forall c, (forall w, fst (exec w c) = w) -> forall w k, exists k' e, crunk (doc c) w k = (w, k', e).
 Proof.
@@ -168,8 +171,8 @@ Proof.
   assert (Hid : w_id x = id) by (apply find_wl_id in Hx; tauto).
   unfold lambda_cleanup. rewrite crunk_bind. unfold ign at 1. rewrite crunk_bind.
   rewrite (remove_sync_none id w x nd p); [| unfold find_wl; rewrite Hw; exact Hx | unfold find_node; rewrite Hn; exact Hnd | unfold find_plug; rewrite Hpl; exact Hplug].
-  rewrite crunk_ret. rewrite crunk_bind. unfold ign, doc, call1. unfold crunk at 1. cbn [bind runk exec].
-  unfold send, ign, doc, call1, crunk. cbn [bind runk exec].
+  rewrite crunk_ret. rewrite crunk_bind. unfold ign, doc, call1. unfold crunk at 1. cbn [bind runk exec is_faultable].
+  unfold send, ign, doc, call1, crunk. cbn [bind runk exec is_faultable].
   eexists. split; [reflexivity|].
   constructor; cbn [wls plugs nodes conts out set_out set_wal removed_world oth find_wl find_cont]; try rewrite Hid.
   - rewrite Hw. reflexivity.
@@ -206,11 +209,11 @@ Proof.
       intros ->. apply crunk_none_k in H1. discriminate.
     - destruct (cleanup_none id (wal_seq w) final w w1 x nd p Hb0 Hx Hnd Hp) as [w' [Hc Hr]].
       rewrite Hc. exists w', None, None. auto. }
-  destruct k as [[|k]|]; cbn [runk fail_reply].
+  destruct k as [[|k]|]; cbn [runk fail_reply is_faultable].
   - (* the WAL entry cannot be written: the workload is removed all the same *)
     rewrite crunk_bind. unfold ign at 1. rewrite crunk_bind.
     rewrite (remove_sync_none id w x nd p Hx Hnd Hp). rewrite crunk_ret.
-    unfold send, ign, doc, call1, crunk. cbn [bind runk exec].
+    unfold send, ign, doc, call1, crunk. cbn [bind runk exec is_faultable].
     do 3 eexists. split; [reflexivity|]. split; [discriminate|]. split; [intros _; reflexivity|]. intros _.
     constructor; cbn [wls plugs nodes conts out set_out removed_world oth]; try rewrite Hid; try reflexivity.
     + unfold find_wl. cbn [wls set_out removed_world oth]. rewrite Hid. apply find_del_none.
